@@ -6,6 +6,7 @@ import (
 	"encoding/json"
 	"fmt"
 	"net"
+	"strings"
 
 	stun "github.com/pion/stun/v3"
 
@@ -177,6 +178,39 @@ var c03Starts = func() []struct {
 			}
 			return m
 		}})
+	}
+	// decoded through the entry points that copy, into a Message that has no storage yet, from a read buffer the
+	// caller fills with the next datagram as soon as the call returns: the message is built on afterwards
+	for _, fi := range []int{2, 4} {
+		raw := ref.Encode(words[fi], tid, fam[fi])
+		for ei, ename := range []string{"Decode(data,m)", "Write", "UnmarshalBinary", "CloneTo"} {
+			ei := ei
+			starts = append(starts, st{fmt.Sprintf("%s(%x) into new(Message), then the caller reuses its buffer", ename, raw), func() *stun.Message {
+				data := exactSlice(raw, 0)
+				m := new(stun.Message)
+				var err error
+				switch ei {
+				case 0:
+					err = stun.Decode(data, m)
+				case 1:
+					_, err = m.Write(data)
+				case 2:
+					err = m.UnmarshalBinary(data)
+				case 3:
+					src := &stun.Message{Raw: data}
+					if err = src.Decode(); err == nil {
+						err = src.CloneTo(m)
+					}
+				}
+				if err != nil {
+					panic("c03 start does not decode: " + err.Error())
+				}
+				for i := range data {
+					data[i] = 0x5A
+				}
+				return m
+			}})
+		}
 	}
 	// bytes of a sloppy peer that the decoder refuses today (last attribute without its padding, the header counting
 	// only what is there; a 5-byte FINGERPRINT-typed attribute is harmless but kept for the family): these are start
@@ -350,15 +384,27 @@ func c03Many(k c03Case) (key, detail string) {
 // c03Live: two messages alive at once.
 func c03Live(k c03Case) (key, detail string) {
 	p := catch(func() {
+		mode := 0 // 0: new(Message); 1: stun.New(), B created when A is complete; 2: stun.New(), both created first
+		if len(k.Live) > 3 {
+			mode = k.Live[3]
+		}
 		for rep := 0; rep < 3 && key == ""; rep++ {
-			a := new(stun.Message)
+			a, b := new(stun.Message), new(stun.Message)
+			if mode > 0 {
+				a = stun.New()
+				if mode == 2 {
+					b = stun.New()
+				}
+			}
 			a.WriteHeader()
 			a.Add(0x0013, patBytes(k.Live[0], 1))
 			a.Add(0x0014, patBytes(k.Live[1], 2))
 			if key, detail = c03Coherent(a); key != "" {
 				return
 			}
-			b := new(stun.Message)
+			if mode == 1 {
+				b = stun.New()
+			}
 			b.WriteHeader()
 			b.Add(0x0013, bytes.Repeat([]byte{0xEE}, k.Live[2]))
 			b.Add(0x0006, []byte("x"))
@@ -374,7 +420,7 @@ func c03Live(k c03Case) (key, detail string) {
 		return "panic", p
 	}
 	if key != "" {
-		detail = fmt.Sprintf("A: Add(%dB), Add(%dB); B: Add(%dB); A checked again => %s", k.Live[0], k.Live[1], k.Live[2], detail)
+		detail = fmt.Sprintf("%v A: Add(%dB), Add(%dB); B: Add(%dB); A checked again => %s", k.Live[3:], k.Live[0], k.Live[1], k.Live[2], detail)
 	}
 	return
 }
@@ -490,8 +536,8 @@ func init() {
 					} else {
 						c.Outcome(fmt.Sprintf("coherent/len%d", len(ops)))
 					}
-					if len(ops) == depth {
-						return
+					if len(ops) == depth || (len(ops) == depth-1 && strings.Contains(c03Starts[si].Name, "then the caller reuses its buffer")) {
+						return // (the reused-read-buffer starts: one level shallower)
 					}
 					for o := 0; o < na; o++ {
 						if len(ops) == 1 {
@@ -555,21 +601,23 @@ func init() {
 					}
 				}
 			}
-			sizes := []int{8, 600, 1100, 1500, 2100, 3000}
-			for _, l0 := range sizes {
-				for _, l1 := range sizes {
-					for _, l2 := range sizes {
-						mi++
-						if !c.Mine(mi) {
-							continue
-						}
-						c.Eval(1)
-						c.DistinctByConstruction++
-						k := c03Case{Start: -3, Live: []int{l0, l1, l2}}
-						if key, d := c03Live(k); key != "" {
-							c.Violation("live/"+key, d, k)
-						} else {
-							c.Outcome("two-live-messages")
+			sizes := []int{8, 40, 600, 1100, 1500, 2100, 3000}
+			for mode := 0; mode < 3; mode++ {
+				for _, l0 := range sizes {
+					for _, l1 := range sizes {
+						for _, l2 := range sizes {
+							mi++
+							if !c.Mine(mi) {
+								continue
+							}
+							c.Eval(1)
+							c.DistinctByConstruction++
+							k := c03Case{Start: -3, Live: []int{l0, l1, l2, mode}}
+							if key, d := c03Live(k); key != "" {
+								c.Violation("live/"+key, d, k)
+							} else {
+								c.Outcome("two-live-messages")
+							}
 						}
 					}
 				}
